@@ -164,7 +164,7 @@ func fieldsReset(c *Ctx, fn *ssa.Function, obj ssa.Value, named *types.Named, be
 				if cst, isC := x.Val.(*ssa.Const); isC && cst.Value == nil && every(x) {
 					if st, ok := named.Underlying().(*types.Struct); ok {
 						for k := 0; k < st.NumFields(); k++ {
-							out[st.Field(k).Name()] = true
+							out[FN(st.Field(k))] = true
 						}
 					}
 				}
@@ -298,7 +298,7 @@ func checkC08(c *Ctx) {
 		// W: fields written anywhere outside the pool constructor
 		all := map[string]bool{}
 		for i := 0; i < st.NumFields(); i++ {
-			all[st.Field(i).Name()] = true
+			all[FN(st.Field(i))] = true
 		}
 		W := map[string]bool{}
 		for _, a := range c.FieldAccesses(pd.elem, all) {
@@ -754,7 +754,7 @@ func c8Ownership(c *Ctx) {
 		bufFields := map[string]bool{}
 		for i := 0; i < st.NumFields(); i++ {
 			if TypeName(st.Field(i).Type()) == "*buffer.Buffer" {
-				bufFields[st.Field(i).Name()] = true
+				bufFields[FN(st.Field(i))] = true
 			}
 		}
 		for _, a := range c.FieldAccesses(named, bufFields) {
@@ -802,7 +802,7 @@ func c8CloneOwnership(c *Ctx, rule string) {
 	for i := 0; stt != nil && i < stt.NumFields(); i++ {
 		tn := TypeName(stt.Field(i).Type())
 		if tn == "*buffer.Buffer" || strings.HasSuffix(tn, "ReflectedEncoder") {
-			owned = append(owned, stt.Field(i).Name())
+			owned = append(owned, FN(stt.Field(i)))
 		}
 	}
 	n := 0
